@@ -355,6 +355,12 @@ func catalogueFor(b stBase, double bool) []*member {
 				if p := try(func() { x.f(s); y.f(s) }); p != "" {
 					continue // the two mutations exclude each other (the second no longer finds its position)
 				}
+				if len(s.Backends) > len(s.Assets) {
+					// two mutations can combine to a surplus Backends entry ("rows-drop" + "assets-drop-only"):
+					// outside the judged family for the reason given in mutsFor (Encode indexes Backends once
+					// per asset and cannot represent it)
+					continue
+				}
 				out = append(out, newMember(x.name+" + "+y.name, s))
 			}
 		}
